@@ -667,6 +667,23 @@ Stop ==
                  gotTrailer, srpc, srcur, srvLock, sreg, sch, hctx, hdoneSig, wpc, wcur, wrpc, wrcur,
                  hpc, hrecv, hsentN, hres, hsawEOF, waitFor, sReadFailed, serveRet>>
 
+\* A connection is closed as a whole: once Serve has returned the transport's owner closes it, so
+\* the client's reads fail; and once the client's reads have failed the server's will too.
+PeerClosesAfterServe ==
+  /\ serveRet /\ ~cReadFailed
+  /\ cReadFailed' = TRUE
+  /\ UNCHANGED <<c2s, s2c, nextId, idOf, muxLock, reg, respCh, respDone, rErr, mpc, mcur, upc, ures,
+                 spc, sop, nsent, closed, cancelled, sres, rpc, rcur, sctx, rdone, rterm, rChClosed, prot,
+                 gotTrailer, srpc, srcur, srvLock, sreg, sch, hctx, hdoneSig, connCtx, wpc, wcur, wrpc, wrcur,
+                 hpc, hrecv, hsentN, hres, hsawEOF, waitFor, sReadFailed, stopped, serveRet>>
+ServerSeesClose ==
+  /\ cReadFailed /\ ~sReadFailed
+  /\ sReadFailed' = TRUE
+  /\ UNCHANGED <<c2s, s2c, nextId, idOf, muxLock, reg, respCh, respDone, rErr, mpc, mcur, cReadFailed, upc, ures,
+                 spc, sop, nsent, closed, cancelled, sres, rpc, rcur, sctx, rdone, rterm, rChClosed, prot,
+                 gotTrailer, srpc, srcur, srvLock, sreg, sch, hctx, hdoneSig, connCtx, wpc, wcur, wrpc, wrcur,
+                 hpc, hrecv, hsentN, hres, hsawEOF, waitFor, stopped, serveRet>>
+
 -----------------------------------------------------------------------------
 AllCallersDone == /\ \A c \in Unaries : upc[c] = "done"
                   /\ \A c \in Streams : spc[c] = "done" /\ rpc[c] \in {"off", "end"}
@@ -687,7 +704,7 @@ Next ==
   \/ \E w \in Workers : WkRun(w) \/ WkHandoff(w) \/ WkExit(w)
   \/ WrWrite \/ WrExit
   \/ \E i \in Ids : HChoose(i) \/ HRecv(i) \/ HSend(i) \/ HTrailer(i) \/ HCancel(i) \/ HUnregister(i)
-  \/ ClientReadFail \/ Stop
+  \/ ClientReadFail \/ Stop \/ PeerClosesAfterServe \/ ServerSeesClose
   \/ Terminated
 
 Spec == Init /\ [][Next]_vars
